@@ -858,3 +858,4 @@ def _graph_property(prop):
 check_C06 = _graph_property("C06")
 check_C09 = _graph_property("C09")
 check_C16 = _graph_property("C16")
+check_C07 = _graph_property("C07")
